@@ -195,3 +195,30 @@ package bytesconv
 //@ macro hexTablesInverse() = forallT(v, 0, 16, upperhex[v], hexv(upperhex[v]) == v && upperhex[v] != '%' && upperhex[v] != '+')
 //@ macro argTablesFacts() = escArg('%') && escArg('+') && !escArg('0')
 //@ macro hexU(v) = upperhex[v]
+
+// C17, encoder half: AppendQuotedArg emits one token per source byte; the ghost description (qx, qpos, qn, qfs)
+// it builds is exactly what isArgEncoding states about the appended region.
+//@ macro encStage(e, m) = forallT(j, 0, m, qx[j], 0 <= qx[j] && qx[j] <= 255 && argTok(e, qpos[j], qx[j], qpos[j+1])) && forallT(j, 0, m + 1, qpos[j], j <= qpos[j] && qpos[j] + (m - j) <= len(e) && (j <= qfs ==> qpos[j] == j)) && forallT(j, 0, m, qx[j], j < qfs ==> argPlain(qx[j]))
+//@ func AppendQuotedArg(dst, src) r
+//@   props C17
+//@   alias dst
+//@   modifies spare(dst), qx, qpos, qn, qfs
+//@   allocates
+//@   ghostset-at-entry qn = len(src)
+//@   ghostset-at-entry qfs = len(src)
+//@   ghostset-at-entry qx = bytesOf(src)
+//@   ghostset-at-entry qpos[0] = 0
+//@   ghostset after append#0: qfs = ite(rangeindex + 1 < qfs, rangeindex + 1, qfs)
+//@   ghostset after append#0: qpos[rangeindex + 2] = len(result) - len(old(dst))
+//@   ghostset after append#1: qfs = ite(rangeindex + 1 < qfs, rangeindex + 1, qfs)
+//@   ghostset after append#1: qpos[rangeindex + 2] = len(result) - len(old(dst))
+//@   ghostset after append#2: qpos[rangeindex + 2] = len(result) - len(old(dst))
+//@   ensures extends(r, dst) && spareOnly(dst)
+//@   top-ensures @C17 !sameArray(dst, src) ==> qn == len(src) && forallT(k, 0, qn, qx[k], qx[k] == old(src[k])) && isArgEncoding(r[len(dst):])
+//@   loop 0:
+//@     invariant -1 <= rangeindex && rangeindex < len(src)
+//@     invariant extends(dst, old(dst)) && spareOnly(old(dst))
+//@     invariant qn == len(src) && qpos[0] == 0 && qpos[rangeindex + 1] == len(dst) - len(old(dst)) && 0 <= qfs && (qfs == len(src) || qfs <= rangeindex)
+//@     invariant !sameArray(old(dst), src) ==> forallT(k, 0, qn, qx[k], qx[k] == src[k])
+//@     invariant !sameArray(old(dst), src) ==> (qfs < len(src) ==> !argPlain(qx[qfs]))
+//@     invariant !sameArray(old(dst), src) ==> encStage(dst[len(old(dst)):], rangeindex + 1)
